@@ -420,7 +420,7 @@ def c04f(ck, prog):
                 sws = [fa.sw_bb for fa in guards.facts_at(ap, prog, rec[0].bb) if fa.kind == "variant" and fa.allowed == {"Some"} and fa.steps and fa.steps[-1][0] == "call" and fa.steps[-1][1].bb == c.bb]
                 if not sws:
                     # no dominating Some edge at all: find the switch on the iterator's answer
-                    sws = [sb for sb in ap.live_blocks() if ap.blocks[sb]["t"]["k"] == "switch" and ap.dominates(c.bb, sb) and ap.dominates(sb, rec[0].bb) and re.search(r"^discr\(next\(", decision.describe_deep(ap, ap.blocks[sb]["t"]["discr"], 2))]
+                    sws = [sb for sb in sorted(ap.live_blocks()) if ap.blocks[sb]["t"]["k"] == "switch" and ap.dominates(c.bb, sb) and ap.dominates(sb, rec[0].bb) and re.search(r"^discr\(next\(", decision.describe_deep(ap, ap.blocks[sb]["t"]["discr"], 2))]
                 for sb in sws[:1]:
                     for tb, lab in ap.succ(sb):
                         if rec[0].bb in ap.reachable_from(tb) and c.bb in ap.reachable_from(tb, avoid=(rec[0].bb,)):
